@@ -479,6 +479,11 @@ def check(ctx, rep):
     dispatch_parity(ctx, rep, 'C10c')
     lookup_order(ctx, rep, 'C10d')
     ambiguous_tokens(ctx, rep, 'C10f')
+    from . import C15 as _c15
+    _c15.predicates(ctx, rep, 'C10d')
+    from .common import value_preserving_rule, self_accumulation_rule
+    value_preserving_rule(ctx, rep, 'C10d', ('peptacular.chem.chem_calc', 'peptacular.chem.chem_util', 'peptacular.glycan', 'peptacular.mods.mod_db', 'peptacular.mods.mod_db_setup', 'peptacular.mass_calc'))
+    self_accumulation_rule(ctx, rep, 'C10f', ('peptacular.mods.mod_db_setup', 'peptacular.chem.chem_calc', 'peptacular.glycan'))
     callers = {f.fq for f in program.all_functions() if f.module.name in (MOD_DB, 'peptacular.mass_calc',
                                                                           'peptacular.glycan')}
     n = add_fwd(rep, forwarding(an, program, ['monoisotopic'], callers=callers), 'C10e')
